@@ -41,6 +41,7 @@ func Run(p *load.Program, tier string) *oblig.Set {
 	reportRule(p, s)
 	segmentsRule(p, s)
 	recoverRule(p, s)
+	pairingRule(p, s)
 	return s
 }
 
